@@ -24,6 +24,24 @@ PROPS = {
                 "'no backslash in a key value'; c08_refuted_backslash proves the unguarded statement false of the model "
                 "(known finding, pinned by TestStringToPath). c08_parse_total is unguarded.",
     ),
+    "C09": dict(
+        level="proof",
+        technique="Coq proof (algorithm = set relation of denotations) + differential correspondence check",
+        claim="ComparePaths returns the true set relation between the sets of concrete data paths two gNMI paths denote (c09_compare, for all "
+              "well-formed paths of any length and any keys), swapping arguments swaps Subset/Superset (c09_swap), the per-element result does "
+              "not depend on map iteration order (c09_order_independent), PathMatchesQuery/PathMatchesPathElemPrefix/TrimGNMIPathElemPrefix/"
+              "JoinPaths/FindPathElemPrefix satisfy their denotational laws (c09_query, c09_trim_join, c09_common_prefix). The transcription of "
+              "util/gnmi.go is compared with the real functions on every run, and a brute-force enumeration of the denotation over the bounded "
+              "alphabet is the implementation-side oracle.",
+        note="Trusted: Coq kernel; hand transcription of util/gnmi.go tied by the 'pathrel' stream (all eight functions, each ComparePaths call "
+             "repeated 8 times to sample map orders); key values non-empty and key names distinct (wf_gpb); FindPathElemPrefix on an empty "
+             "list of paths does not terminate in Go and is excluded; nil PathElems are not generated.",
+        coq_files=["Path/PathRel", "Path/PathRelProofs", "Corr/PathRelCorr"],
+        streams=[dict(name="pathrel", n=N(2400, 20000))],
+        signatures=["compare", "trim-join", "common-prefix"],
+        trusted=["a PathElem key map is an association list in arbitrary order (order independence is a theorem)"],
+        partial="PathMatchesPrefix (string prefix) and PathElemsEqual are covered by the correspondence stream only.",
+    ),
 }
 
 NOT_APPLICABLE = {}
